@@ -275,6 +275,10 @@ func (c *fnCtx) pbEvent(in ssa.Instruction, name string, cc *ssa.CallCommon, arg
 	pos := in.Pos()
 	switch name {
 	case "AddLayer":
+		if len(cc.Args) > 0 {
+			root.lastAdded = cc.Args[len(cc.Args)-1]
+			root.lastAddedVal = args[len(args)-1]
+		}
 		root.addOblAt(c, "typestate", pos, "(= "+c.pbGet(0)+" 0)", "AddLayer before NextDecoder")
 		root.addOblAt(c, "typestate-err", pos, "(= "+c.pbGet(2)+" 0)", "no layer added after an error layer")
 		c.pbSet(1, "1")
@@ -285,6 +289,9 @@ func (c *fnCtx) pbEvent(in ssa.Instruction, name string, cc *ssa.CallCommon, arg
 	case "NextDecoder":
 		root.addOblAt(c, "typestate", pos, "(= "+c.pbGet(0)+" 0)", "at most one NextDecoder")
 		root.addOblAt(c, "typestate-err", pos, "(= "+c.pbGet(2)+" 0)", "no NextDecoder after an error layer")
+		if cc.IsInvoke() && cc.Method.Name() == "NextDecoder" {
+			c.progressObl(in, pos)
+		}
 		c.pbSet(0, "1")
 		if ci, ok := in.(*ssa.Call); ok && c.inlineOf == nil {
 			if !tailUse(ci) {
@@ -556,4 +563,120 @@ func (e *Engine) pbUses(f *ssa.Function, depth int) map[string]bool {
 
 func pbStructural(u map[string]bool) bool {
 	return u["*"] || u["NextDecoder"] || u["AddLayer"] || u["SetErrorLayer"] || u["SetLinkLayer"] || u["SetNetworkLayer"] || u["SetTransportLayer"] || u["SetApplicationLayer"]
+}
+
+// progressObl: at p.NextDecoder(..) the payload handed to the next decoder is strictly shorter than this
+// decoder's input (or empty), so a chain of decoders does at most len(data) steps (C01 "bounded time").
+func (c *fnCtx) progressObl(in ssa.Instruction, pos token.Pos) {
+	root := c.root()
+	if !c.eng.wantClass("progress") || root.gcfg == nil {
+		return
+	}
+	var dataLen string
+	for i, p := range root.f.Params {
+		if isByteSlice(p.Type()) && i < len(root.params) {
+			dataLen = root.params[i].T[2]
+			break
+		}
+	}
+	if dataLen == "" || root.lastAdded == nil {
+		root.addOblAt(c, "progress", pos, "false", "payload of the added layer is shorter than the input (no layer / input found)")
+		return
+	}
+	// the layer value is an interface made from a *T whose LayerPayload() returns BaseLayer.Payload
+	mi, ok := root.lastAdded.(*ssa.MakeInterface)
+	if !ok {
+		root.addOblAt(c, "progress", pos, "false", "payload of the added layer is shorter than the input (layer of unknown type)")
+		return
+	}
+	pt, ok := mi.X.Type().Underlying().(*types.Pointer)
+	if !ok {
+		root.addOblAt(c, "progress", pos, "false", "payload of the added layer is shorter than the input (layer held by value)")
+		return
+	}
+	ev := &evalEnv{c: c, st: c.st, old: c.st, bound: map[string]tv{}, pkg: c.pkgOf(root.f)}
+	var plen string
+	func() {
+		defer func() {
+			if r := recover(); r != nil {
+				if _, isE := r.(evalErr); !isE {
+					panic(r)
+				}
+			}
+		}()
+		saved := c.st
+		pl := ev.selField(tv{v: c.val(mi.X), t: pt}, "Payload")
+		c.st = saved
+		if pl.v.K == KSlice {
+			plen = pl.v.T[2]
+		}
+	}()
+	if plen == "" {
+		root.addOblAt(c, "progress", pos, "false", "payload of the added layer is shorter than the input (no Payload field)")
+		return
+	}
+	root.addOblAt(c, "progress", pos, fmt.Sprintf("(or (= %s 0) (< %s %s))", plen, plen, dataLen), "payload of the added layer is shorter than the input")
+}
+
+// resetObligations (C05): at every return with a nil error each scalar field of the receiver struct, including
+// fields of structs nested by value, has been assigned during this call (so no state of a previous packet
+// survives). Fields named in the contract's "keeps" clause are caller-owned and exempt.
+func (c *fnCtx) resetObligations() {
+	if c.resetRecv == "" || c.mute {
+		return
+	}
+	pt, ok := c.f.Params[0].Type().Underlying().(*types.Pointer)
+	if !ok {
+		return
+	}
+	keep := map[string]bool{}
+	if c.ct != nil {
+		for _, k := range c.ct.Keeps {
+			keep[k] = true
+		}
+	}
+	var keys []struct{ key, name string }
+	var walk func(t types.Type, prefix string, depth int)
+	walk = func(t types.Type, prefix string, depth int) {
+		st, ok := t.Underlying().(*types.Struct)
+		if !ok || depth > 4 {
+			return
+		}
+		for i := 0; i < st.NumFields(); i++ {
+			f := st.Field(i)
+			name := prefix + f.Name()
+			if keep[name] || keep[f.Name()] {
+				continue
+			}
+			switch kindOf(f.Type()) {
+			case KStruct:
+				walk(f.Type(), name+".", depth+1)
+			case KArr:
+				// fixed arrays are written element-wise: not tracked
+			default:
+				comps := scalarComponents(f.Type())
+				if len(comps) > 0 {
+					keys = append(keys, struct{ key, name string }{fieldKey(t, f) + comps[len(comps)-1].suf, name})
+				}
+			}
+		}
+	}
+	walk(pt.Elem(), "", 0)
+	for ri, r := range c.rets {
+		errNil := "true"
+		if n := len(r.vals); n > 0 && r.vals[n-1].K == KIface {
+			errNil = "(= " + r.vals[n-1].T[0] + " 0)"
+		}
+		for _, k := range keys {
+			gk := "ghost:w:" + k.key
+			c.em.regKey(gk, "Int", false)
+			saved := c.st
+			c.st = r.st.clone()
+			h := c.heapGet(gk)
+			c.st = saved
+			o := &Obl{Class: "reset", Fn: c.fnName(), Pos: c.eng.prog.Fset.Position(r.pos), Text: "field " + k.name + " is assigned before a successful return", Guard: "(and " + r.reach + " " + errNil + ")", Cond: "(= (select " + h + " 0) 1)"}
+			o.Name = fmt.Sprintf("%s#reset:%s/ret%d", o.Fn, k.name, ri)
+			c.obls = append(c.obls, o)
+		}
+	}
 }
